@@ -109,8 +109,9 @@ CHECKS = {
     "C12": ("exploration",
             "independent llama.cpp-syntax GBNF parser (with error recovery) as validity predicate over generated schemas",
             "Generated schemas (field-name pool covering every branch of the compiler's name handling and its own rule names; "
-            "chains with hostile ENUM/CONST values and 40 REGEX patterns) are compiled through every route (schema text, "
-            "META.CONTRACT, API objects; fresh and reused compiler; octave_compile_grammar, octave_eject gbnf, grammar_hint) and "
+            "chains with hostile ENUM/CONST values, empty/blank member lists and 45 REGEX patterns) are compiled through every route (schema text, "
+            "META.CONTRACT, API objects; fresh and reused compiler; octave_compile_grammar, octave_eject gbnf, grammar_hint incl. "
+            "packaged schemas with hostile rejected values) and "
             "each grammar must parse under llama.cpp's syntax, define root and every reference, no rule twice, no empty "
             "alternative. Sampled; the packaged schemas are always included.",
             "my reading of llama.cpp's grammar-parser is the definition of well-formed; four malformation classes are genuine "
@@ -120,17 +121,19 @@ CHECKS = {
             "bounded exhaustive / sampled derivation of each compiled field rule (own GBNF parser) -> OCTAVE reader -> the field's own constraint chain",
             "For generated schemas whose chains are decided by CONST/ENUM/TYPE[BOOLEAN]/TYPE[NUMBER]/DATE/ISO8601 the compiled "
             "grammar is parsed independently and the field rule derived (exhaustive for CONST/ENUM/BOOLEAN, NUMBER up to 3+3 "
-            "digits over 4 digit values, seeded samples plus calendar boundaries for dates; ws in {'', ' '}); every derived "
-            "line must be read as exactly one assignment of that field whose value the field's chain accepts, also through "
-            "octave_validate with the schema planted.",
-            "character classes are explored through representative characters; unbounded repetition is cut at 3",
+            "digits over 4 digit values plus stretched derivations with every unbounded repetition taken 17/310/400 times, "
+            "seeded samples plus calendar boundaries for dates; ws in {'', ' '}); every derived "
+            "line must be read as exactly one assignment of that field whose value the field's chain accepts, through "
+            "ConstraintChain.evaluate, Validator.validate and octave_validate with the schema planted.",
+            "character classes are explored through representative characters; unbounded repetition is cut at 3 in the exhaustive part",
             "DESIGN.md §3 C13"),
     "C14": ("exploration",
             "leaf-set relations (subset / equality / honest flag / agreement across formats) with independent per-format readers",
             "Generated documents are ejected in 4 modes x 4 formats (tool) and 4 x 3 (CLI); each view is read back with an "
             "independent reader (OCTAVE reader, json, yaml.safe_load, Markdown scanner) into (key path, typed value) leaves: "
             "never a leaf the source lacks; canonical/authoring hold every leaf and say lossy=false; a dropping view says "
-            "lossy=true; JSON/YAML/OCTAVE of one projection agree on key paths, Markdown names every key. Sampled.",
+            "lossy=true; JSON/YAML/OCTAVE of one projection agree on key paths, Markdown names every key; five overlapping "
+            "requests on the shared tool instance answer as each does alone. Sampled.",
             "Markdown is compared by key names and scalar text only (headings cannot close a nested block); key order is not asserted",
             "DESIGN.md §3 C14"),
     "C15": ("exploration",
@@ -153,9 +156,9 @@ CHECKS = {
             "requests address top-level assignments, META fields and fresh keys; deleted nodes carry no comments; documents have no empty containers",
             "DESIGN.md §3 C18"),
     "C16": ("fault_enumeration",
-            "enumeration of every file-operation boundary x {kill, torn write, 5 errnos} via in-process interposition in forked children; before/after state oracle",
-            "For 36 (thorough: 60+) scenarios of octave_write, atomic_write_octave and CLI write, the fault-free run is traced and "
-            "every boundary is then hit with a kill, a torn write and five injected errnos (thorough: all ordered pairs for two "
+            "enumeration of every file-operation boundary x {kill, torn write, short write, 5 errnos} via in-process interposition in forked children; before/after state oracle",
+            "For 46 (thorough: 60+) scenarios of octave_write (incl. lenient schema repair), atomic_write_octave and CLI write, the fault-free run is traced and "
+            "every boundary is then hit with a kill, a torn write, a short write and five injected errnos (thorough: all ordered pairs for two "
             "errnos); the supervising process checks that the target holds old or complete new bytes after a kill, is untouched "
             "with no temp file left after a returned error, matches canonical_hash and keeps its permission bits after success, "
             "and that fsync precedes replace. Exhaustive over the traced boundaries of the listed scenarios.",
@@ -164,8 +167,8 @@ CHECKS = {
             "DESIGN.md §3 C16"),
     "C17": ("exploration",
             "register model over generated call histories; exhaustive in-call modification points; exhaustive two-writer interleavings with a deterministic scheduler",
-            "Generated histories of writes / changes / normalize / dry runs / external modifications with every base_hash choice are "
-            "checked step by step against a register model with a whole-sandbox snapshot before and after each call; for a call "
+            "Generated histories of writes / changes / normalize / dry runs / external modifications (tool and CLI --base-hash) with every base_hash choice are "
+            "checked step by step against a register model (bytes and touched top-level keys) with a whole-sandbox snapshot before and after each call; for a call "
             "holding the current hash the file is modified right before each of its file-operation boundaries (exhaustive); two "
             "writers with one base_hash are run through all 252 interleavings of their five logical steps for octave_write and "
             "atomic_write_octave (exhaustive), plus overlapping coroutines in one event loop.",
@@ -183,12 +186,14 @@ CHECKS = {
             "the harness's own lexical + lstat classification of a path is the oracle for 'must be refused'",
             "DESIGN.md §3 C19"),
     "C20": ("exploration",
-            "exhaustive short token sequences, Unicode text, span mutations of packaged files, coverage-guided atheris campaign (thorough), CPU-time ratios; exception bucketing",
-            "Every sequence of <=3 (thorough <=4) symbols over a 33-symbol alphabet, generated Unicode text and punctuation soups, "
-            "mutated copies of ~40 packaged files, extreme probes, and (thorough) a coverage-guided atheris campaign all go "
-            "through tokenize/parse/parse_with_warnings/parse_meta_only, which may only raise LexerError/ParserError; the four "
-            "MCP tools are called with the same contents and must return JSON-serialisable envelopes carrying a status; twenty "
-            "size-scaled families are timed at n/4n/16n in CPU time with triple confirmation in fresh processes.",
+            "exhaustive short token sequences, Unicode text, span mutations of packaged files, typed-hole product through every tool flag, coverage-guided atheris campaign (thorough), CPU-time ratios and CPU-time hang guard; exception bucketing",
+            "Every sequence of <=3 (thorough <=4) symbols over a 36-symbol alphabet, generated Unicode text, punctuation soups and "
+            "unterminated constructs, mutated copies of ~40 packaged files, extreme probes, and (thorough) a coverage-guided atheris "
+            "campaign all go through tokenize/parse/parse_with_warnings/parse_meta_only, which may only raise LexerError/ParserError "
+            "and must answer an input below 20 kB within 10 CPU-seconds; the four MCP tools are called with the same contents, with "
+            "write histories on one path, and with a product of 19 interpreted positions x 50 values x every mode/format flag, and "
+            "must return JSON-serialisable envelopes carrying a status; 24 size-scaled families are timed at n/4n/16n in CPU time "
+            "with triple confirmation in fresh processes.",
             "foreign exceptions are bucketed by (type, innermost octave_mcp frame); timing uses ratios, not absolute limits; "
             "text excludes lone surrogates",
             "DESIGN.md §3 C20"),
